@@ -3,6 +3,8 @@ CONSTANTS
   NWork = 6
   NMembers = 3
   MaxFaults = 1
+  CrossDevice = FALSE
+  StageInTemp = FALSE
   CloseOnInterrupt = TRUE
 INIT Init
 NEXT Next
